@@ -44,6 +44,10 @@ func main() {
 		replay(os.Args[2:])
 	case "post":
 		post(os.Args[2:])
+	case "full":
+		full(os.Args[2:])
+	case "witness":
+		witness(os.Args[2:])
 	default:
 		fmt.Fprintln(os.Stderr, "unknown mode")
 		os.Exit(2)
@@ -406,6 +410,25 @@ func genFile(r *rng.R, i int) (f *ach.File) {
 	default:
 		f = gen.FileOfSEC(r, kind, o)
 	}
+	// values with leading blanks (right-justified account numbers, identification numbers): JSON carries
+	// them verbatim and the writer emits them as they are
+	if f != nil && r.Chance(1, 5) {
+		for _, b := range f.Batches {
+			for _, e := range b.GetEntries() {
+				if !r.Chance(1, 2) || strings.EqualFold(strings.TrimSpace(e.IndividualName), "OFFSET") {
+					continue // a generated offset entry is rebuilt from the Offset configuration by every Create
+				}
+				if n := len([]rune(e.DFIAccountNumber)); n > 0 && n < 17 && r.Bool() {
+					e.DFIAccountNumber = strings.Repeat(" ", r.Range(1, 17-n)) + e.DFIAccountNumber
+				} else if n := len([]rune(e.IdentificationNumber)); n > 0 && n < 15 && b.GetHeader().StandardEntryClassCode == ach.PPD {
+					e.IdentificationNumber = strings.Repeat(" ", r.Range(1, 15-n)) + e.IdentificationNumber
+				}
+			}
+		}
+		if f.Create() != nil || f.Validate() != nil {
+			return nil
+		}
+	}
 	// the file header admits RFC 3339 timestamps for its creation date and time (any zone offset)
 	if f != nil && r.Chance(1, 6) {
 		ts := rng.Pick(r, []string{"2019-09-23T21:50:52-07:00", "2021-01-31T23:59:00+05:30", "2020-02-29T00:10:00Z", "2022-12-31T22:15:07-10:00", "2018-07-04T03:04:05+09:00"})
@@ -635,6 +658,7 @@ func check(f *ach.File, label string, st *evalStats, tmpdir string, deep bool) [
 	tc.JSON = string(js)
 	wantOpts, wantOffsets := optsOf(f), offsetsStr(offsetsOf(f))
 
+	ref := t1 // the text the round trip must reproduce
 	compare := func(path string, g *ach.File, err error) {
 		st.paths[path]++
 		if err != nil {
@@ -646,7 +670,7 @@ func check(f *ach.File, label string, st *evalStats, tmpdir string, deep bool) [
 			fail(path, "write-"+errClass(err), firstLine(err.Error()))
 			return
 		}
-		a, b := t1, t2
+		a, b := ref, t2
 		if f.Header.FileCreationDate == "" || f.Header.FileCreationTime == "" {
 			a, b = maskCreation(a), maskCreation(b)
 		}
@@ -706,6 +730,14 @@ func check(f *ach.File, label string, st *evalStats, tmpdir string, deep bool) [
 		}
 		if rf.GetValidation() == nil && f.GetValidation() != nil {
 			rf.SetValidation(f.GetValidation())
+		}
+		// what the Reader itself loses (leading blanks of trimmed fields, ...) is C01's matter: the JSON
+		// of the file read must decode to a file that writes what the file read writes
+		if tr, err := writeText(&rf); err == nil {
+			if tr != t1 {
+				st.paths["text-json-text:reader-changed-the-text"]++
+			}
+			ref = tr
 		}
 		js2, err := json.Marshal(&rf)
 		if err != nil {
@@ -952,6 +984,14 @@ func oracle(args []string) {
 				continue
 			}
 		}
+		if i%11 == 5 {
+			// a file whose header line depends on the header's own copy of the options (10-character origin / destination under the bypass flags)
+			if g := bypassValid(r, f); g != nil {
+				sum.Dist["header-bypass"]++
+				run(g, label+":header-bypass")
+				continue
+			}
+		}
 		if i%3 == 2 {
 			o := randOpts(r)
 			applyOpts(f, o)
@@ -1135,9 +1175,10 @@ func cli(args []string) {
 func cliCheck(bin, tmp string, f *ach.File, t1 string, tc testCase) (fails []failure) {
 	put := func(fl failure) { fails = append(fails, fl) }
 	pa, pj := filepath.Join(tmp, "in.ach"), filepath.Join(tmp, "mid.json")
+	ref := t1
 	classify := func(t2 string) {
-		if t2 != t1 {
-			k, what := diffKey(t1, t2)
+		if t2 != ref {
+			k, what := diffKey(ref, t2)
 			switch {
 			case hasCATXZeroAddenda(f) && catxNameCols.MatchString("text-diff:"+k):
 				k = "json:catx:zero-addenda-records"
@@ -1154,6 +1195,13 @@ func cliCheck(bin, tmp string, f *ach.File, t1 string, tc testCase) (fails []fai
 		return "cli:reformat-ach:error"
 	}
 	if f.GetValidation() == nil {
+		// achcli starts from the text: what the Reader itself loses (leading blanks of trimmed fields) is
+		// C01's matter, the reference is the text the library writes for the file it reads
+		if rf, err := ach.NewReader(strings.NewReader(t1)).Read(); err == nil {
+			if tr, err := writeText(&rf); err == nil {
+				ref = tr
+			}
+		}
 		os.WriteFile(pa, []byte(t1), 0o600)
 		js, err := exec.Command(bin, "-reformat", "json", pa).Output()
 		if err != nil {
@@ -1187,7 +1235,11 @@ func cliCheck(bin, tmp string, f *ach.File, t1 string, tc testCase) (fails []fai
 	}
 	js2, err := exec.Command(bin, "-reformat", "json", pj).Output()
 	if err != nil {
-		put(failure{Kind: "fail", Key: "cli:opts:reformat-json:error", What: "achcli -reformat json refuses the JSON of a file valid under its stored options: " + firstLine(err.Error()+" "+string(js2)), Case: tc})
+		k := "cli:opts:reformat-json:error"
+		if hasCATXZeroAddenda(f) {
+			k = "json:catx:zero-addenda-records" // the known CTX/ATX re-packing finding, reached through the CLI
+		}
+		put(failure{Kind: "fail", Key: k, What: "achcli -reformat json refuses the JSON of a file valid under its stored options: " + firstLine(err.Error()+" "+string(js2)), Case: tc})
 		return
 	}
 	var doc struct {
